@@ -372,3 +372,57 @@ def caller_object_reaches(cx, var, use):
         if feasible:
             out.append(d)
     return out
+
+
+def expr_texts(cx, node, expr):
+    """texts of `expr` itself and, when it is a local name, of the expressions it was bound to (looks through single-use
+    temporaries in either direction: `t = E; f(t)` and `f(E)` both yield E)"""
+    out = {ast.unparse(expr)}
+    if isinstance(expr, ast.Name):
+        for s in cx.sources(node, expr):
+            if s.kind == 'expr':
+                out.add(ast.unparse(s.expr))
+            elif s.kind == 'param':
+                out.add('param:' + str(s.expr))
+    return out
+
+
+def comes_from(cx, node, expr, fragment):
+    return any(fragment in t for t in expr_texts(cx, node, expr))
+
+
+class _Inline(ast.NodeTransformer):
+    def __init__(self, env, depth):
+        self.env, self.depth = env, depth
+
+    def visit_Name(self, n):
+        if isinstance(n.ctx, ast.Load) and n.id in self.env and self.depth < 8:
+            import copy
+            v = copy.deepcopy(self.env[n.id])
+            return _Inline({k: w for k, w in self.env.items() if k != n.id}, self.depth + 1).visit(v)
+        return n
+
+    def visit_Lambda(self, n):
+        return n
+
+    visit_ListComp = visit_SetComp = visit_DictComp = visit_GeneratorExp = visit_Lambda
+
+
+def unique_defs(cx):
+    """locals of cx bound exactly once in the function, to an expression (not parameters, loop variables, augmented)"""
+    d, bad = {}, set()
+    for n in cx.cfg.nodes:
+        for nm, v in cx.cfg.defs_of(n):
+            if nm in d or not isinstance(v, ast.AST) or n.kind != 'stmt':
+                bad.add(nm)
+            d[nm] = v
+    return {k: v for k, v in d.items() if k not in bad}
+
+
+def full_text(cx, expr):
+    """text of expr with every single-definition local replaced by its defining expression, recursively: indifferent to
+    temporaries being introduced, inlined or renamed"""
+    import copy
+    env = unique_defs(cx)
+    e = _Inline(env, 0).visit(copy.deepcopy(expr))
+    return ast.unparse(e)
